@@ -1,0 +1,34 @@
+//go:build verif
+
+package verifspec
+
+// Contracts for internal/sourcemapx (property C19).
+
+//@ extern bytes.IndexByte
+//@   param b c
+//@   ensures -1 <= result && result < len(b)
+//@   ensures result >= 0 ==> b[result] == c && forall(k, 0, result, b[k] != c)
+//@   ensures result == -1 ==> forall(k, 0, len(b), b[k] != c)
+
+//@ extern encoding/binary.bigEndian.Uint16
+//@   param recv b
+//@   requires len(b) >= 2
+//@   ensures result == b[0]*256 + b[1]
+
+//@ extern fmt.Errorf
+//@   param format
+//@   ensures result != nil
+
+//@ func internal/sourcemapx.FindHint
+//@ property C19
+//@   ensures result == -1 ==> forall(k, 0, len(b), b[k] != 8)
+//@   ensures result != -1 ==> 0 <= result && result < len(b) && b[result] == 8 && forall(k, 0, result, b[k] != 8)
+
+//@ pure hlen(b []byte, i int) int = b[i+1]*256 + b[i+2]
+
+//@ func internal/sourcemapx.ReadHint
+//@ property C19
+//@   panics_if len(b) < 3 || b[0] != 8 || len(b) < hlen(b, 0) + 3
+//@   ensures length == hlen(b, 0) + 3
+//@   ensures len(h.Payload) == hlen(b, 0) && forall(k, 0, hlen(b, 0), h.Payload[k] == b[3+k])
+//@   ensures fresharr(h.Payload)
